@@ -56,7 +56,9 @@ func Code(entry uint64, ins []parser.Instruction) (*deps.Code, error) {
 }
 
 // Assembler helpers (RV64).
-func R(f7, rs2, rs1, f3, rd, op uint32) uint32 { return f7<<25 | rs2<<20 | rs1<<15 | f3<<12 | rd<<7 | op }
+func R(f7, rs2, rs1, f3, rd, op uint32) uint32 {
+	return f7<<25 | rs2<<20 | rs1<<15 | f3<<12 | rd<<7 | op
+}
 func I(imm int64, rs1, f3, rd, op uint32) uint32 {
 	return rvref.EncI(imm) | rs1<<15 | f3<<12 | rd<<7 | op
 }
